@@ -17,7 +17,7 @@ def interleaved(case):
     ops = parse(case)[2:]
     last_build = None
     for op in ops:
-        if op[0] == "build": last_build = op[1]
+        if op[0] in ("build", "build-text"): last_build = op[1]
         elif op[0] in ("ask", "solve", "solve-all") and last_build is not None and op[1] != last_build: return True
     return False
 
@@ -53,6 +53,20 @@ def cases(tier, rng):
         q = order[0]
         ops += [build(q, qs[q])] + ops_for(rng, q, "asks")
         out.append((hist(rules, ops), "sequential"))
+    # queries built from TEXT (parse_query), zero-argument queries among them, after timed-out / abandoned / finished ones
+    nt = 150 if tier == "quick" else 3000
+    for _ in range(nt):
+        rules, preds = g.program()
+        q0 = g.query(preds)
+        rules = rules + [rule(cplx("go"), AND(call("(c %s)" % " ".join(q0)), PRINT(atom("go %s;"), q0[1]))),
+                         rule(cplx("go"), PRINT(atom("go2")))]
+        texts = ["go", "go", "zero", query_text(q0), query_text(g.query(preds)), "go."]
+        ops = []
+        for r in range(rng.choice([2, 3, 4])):
+            q = rng.randrange(2)
+            ops += [build_text(q, rng.choice(texts))] + ops_for(rng, q)
+        ops += [build_text(0, rng.choice(texts[:3]))] + ops_for(rng, 0, "asks")
+        out.append((hist(rules, ops), "text-built"))
     m = 25 if tier == "quick" else 400
     for _ in range(m):
         rules, preds = g.program()
@@ -63,7 +77,8 @@ def cases(tier, rng):
 RULE = ("histories of 3-5 query builds over 2-3 queries of a random program (cut, not, print, disjunctions, built-ins): each "
         "build is followed by requests through next_solution (3-9, i.e. also after exhaustion), solve, solve_all, by an "
         "abandoned search (1-2 requests) or by a search that times out (hook: flag raised at read 0,1,2,3,5 or 8); the first "
-        "query is then built and asked again. Oracle: every request on every build follows the reference search of THAT query "
+        "query is then built and asked again; the same with queries built from text by parse_query (zero-argument queries `go`, "
+        "`zero` among them). Oracle: every request on every build follows the reference search of THAT query "
         "alone (answers up to renaming of unbound variables, output per request, texts of solve/solve_all), whatever preceded it; "
         "and the two runs of the repeated query give identical observations. A few histories interleave the requests of two "
         "queries (known finding). Non-trivial = at least two different queries return answers and one build is preceded by a "
@@ -77,7 +92,7 @@ def relations(cases, impl, model):
         yield v
     REL_STATS["repeated_query_runs_compared"] = 0
     for (case, tag), (iout, ires) in zip(cases, impl):
-        if tag != "sequential" or not ires.startswith("(obs"): continue
+        if tag not in ("sequential", "text-built") or not ires.startswith("(obs"): continue
         c = parse(case); r = parse(ires)
         ops, obs = c[2:], r[1:]
         if len(obs) < len(ops): continue
@@ -85,9 +100,9 @@ def relations(cases, impl, model):
         runs = {}
         k = 0
         while k < len(ops):
-            if ops[k][0] == "build":
+            if ops[k][0] in ("build", "build-text"):
                 j = k + 1
-                while j < len(ops) and ops[j][0] != "build": j += 1
+                while j < len(ops) and ops[j][0] not in ("build", "build-text"): j += 1
                 key = (sx_text(ops[k][2:]), tuple(sx_text(o[0:1]) for o in ops[k + 1:j]))
                 if all(o[0] == "ask" for o in ops[k + 1:j]):
                     runs.setdefault(key, []).append([sx_text(x) for x in obs[k:j]])
